@@ -310,6 +310,12 @@ class CellVariable:
                                 np.logical_or(self.value, other),
                                 deepcopy(self.BCs))
     
+    def __rand__(self, other):
+        return self.__and__(other)
+
+    def __ror__(self, other):
+        return self.__or__(other)
+
     def __abs__(self):
         return CellVariable(self.domain,
                             np.abs(self.value),
